@@ -1,6 +1,7 @@
 ------------------------------ MODULE Gen_C09 ------------------------------
 (* The value alphabet of C09: null, both booleans, numbers (negative, zero, *)
-(* equal values with different scale, large), strings, dates, times,        *)
+(* a negative zero, equal values with different scale, large), strings,     *)
+(* dates, times,                                                            *)
 (* date-times, both duration kinds, lists, contexts, ranges, a function.    *)
 (* Printed once; the harness builds each value programmatically.            *)
 EXTENDS Naturals, Integers, Sequences, TLC, Json
@@ -27,14 +28,14 @@ Big == N(0, <<1>>, 33, 0)
 
 Base == <<
   Null, B(TRUE), B(FALSE),
-  N(1, <<1>>, 0, 0), N(0, <<>>, 0, 0), One, N(0, <<1>>, 0, 1), N(0, <<1>>, 0, 2), Two, N(0, <<1, 5>>, 0 - 1, 0), Big,
+  N(1, <<1>>, 0, 0), N(0, <<>>, 0, 0), N(1, <<>>, 0, 0), One, N(0, <<1>>, 0, 1), N(0, <<1>>, 0, 2), Two, N(0, <<1, 5>>, 0 - 1, 0), Big,
   S(<<>>), S(<<97>>), S(<<98>>), S(<<97, 97>>),
   D(2021, 1, 1), D(2021, 1, 2), D(2020, 2, 29),
   T(10, 0, 0, 0, "utc", 0), T(11, 0, 0, 0, "utc", 0), T(12, 0, 0, 0, "offset", 3600),
   DT(D(2021, 1, 1), T(10, 0, 0, 0, "utc", 0)), DT(D(2021, 1, 1), T(11, 0, 0, 0, "offset", 3600)), DT(D(2021, 1, 2), T(0, 0, 0, 0, "utc", 0)),
   DTD(FALSE, <<3, 6, 0, 0>>, 0), DTD(FALSE, <<8, 6, 4, 0, 0>>, 0), DTD(TRUE, <<1>>, 0),
   YMD(FALSE, <<1, 2>>), YMD(FALSE, <<1, 4>>), YMD(TRUE, <<1>>),
-  L(<<>>), L(<<One>>), L(<<One, Two>>),
+  L(<<>>), L(<<One>>), L(<<One, Two>>), L(<<B(TRUE)>>), L(<<B(FALSE)>>),
   C(<<>>), C(<<[n |-> "a", nc |-> <<97>>, v |-> One]>>),
   R(One, TRUE, Two, TRUE), R(One, FALSE, Two, FALSE),
   Fn >>
